@@ -24,7 +24,7 @@ META = {
         "all yields, modifier data, observations and measurement parameter settings are solver symbols; log-density primitives uninterpreted (likelihood identities by decomposition into terms with pairwise equal arguments)",
         "workspace.json / measurement.json schema validation runs for real on symbolic workspaces",
         "refusal cases: one channel / measurement / parameter-config name of the right workspace is symbolic in the equality sense (forked over the literal pool of pyhf.workspace, the left workspace's names, fresh)",
-        "deliberately not asserted (the statement does not settle them): what 'outer' + merge_channels does with same-named samples of different content, and whether left/right outer keep the secondary's private parameter configs",
+        "deliberately not asserted (the statement does not settle them): WHICH definition of a same-named sample of different content survives a merge_channels join (asserted only: an accepted result has one definition per sample name, taken from an input, keeps both sides' private samples and builds a model), and whether left/right outer keep the secondary's private parameter configs",
     ],
     "bounds": {
         "quick": "3 workspace pairs (1-2 channels each, shared and private parameters, same / different measurement names) x 4 joins x merge flag; prune / rename selections of <=2 items per kind on 3 workspaces; sorted under all permutations of lists of length <=3",
